@@ -75,7 +75,7 @@ func H_C12_seq() {
 	second := vfParam("second", -1)
 	third := vfParam("third", -1)
 	oneid := vfParam("oneid", 0) // every envelope uses stream id 1
-	lazy := vfParam("lazy", 0) // streaming handler returns at once without reading its input
+	lazy := vfParam("lazy", 0)   // streaming handler returns at once without reading its input
 	impl := &zzImpl{}
 	impl.unary = func(ctx context.Context, in *testproto.Msg) (*testproto.Msg, error) {
 		return &testproto.Msg{Value: in.GetValue() + 1}, nil
@@ -185,30 +185,4 @@ func H_C12_seq() {
 		vfAssert(vfCensus() == 0, "nothing-left-running")
 		vfReach("checked")
 	})
-}
-
-// H_C12_method: parseRawMethod over every string of length n: never panics; drops one leading
-// '/', splits at the last '/', and fails exactly when no '/' remains.
-func H_C12_method() {
-	n := vfParam("n", 4)
-	s := vfString("method", n)
-	svc, m, err := parseRawMethod(s)
-	t := s
-	if len(t) > 0 && t[0] == '/' {
-		t = t[1:]
-	}
-	last := -1
-	for i := 0; i < len(t); i++ {
-		if t[i] == '/' {
-			last = i
-		}
-	}
-	if last < 0 {
-		vfAssert(err != nil, "no-separator-is-an-error")
-		vfReach("error")
-		return
-	}
-	vfAssert(err == nil, "separator-present-parses")
-	vfAssert(svc == t[:last] && m == t[last+1:], "split-at-the-last-separator")
-	vfReach("parsed")
 }
